@@ -55,7 +55,6 @@ static void build_table(struct ps_table* t){
   }
   uint64_t sz = 1;
   for (int d = ND - 1; d >= 0; d--) { t->strides[d] = sz; sz *= t->naxes[d]; }
-  t->coefficients = xmalloc(sz * sizeof(vr32));
-  for (uint64_t i = 0; i < sz; i++) t->coefficients[i] = nondet_u32();
+  t->coefficients = xmalloc(sz * sizeof(vr32));   /* contents left unconstrained: CBMC treats fresh heap memory as nondeterministic */
 }
 #endif
